@@ -808,6 +808,11 @@ impl BlobStore for ZipOffsetBlobStore {
         }
 
         // Get record size from offset difference
+        if self.config.compress_level > 0 {
+            // the stored length is the compressed length; report the record's own size
+            return self.get(id).map(|data| Some(data.len()));
+        }
+
         let (start_offset, end_offset) = self.offsets.get2(id as usize)?;
         let mut size = (end_offset - start_offset) as usize;
 
